@@ -197,6 +197,30 @@ def child_roundtrip(text, recs, topts, tmpdir):
 # driver side
 
 
+def exec_child(workdir, hashseed, args):
+    """Run one operation in a fresh interpreter with the given PYTHONHASHSEED.
+    Returns (status, payload) like core.fork_call."""
+    import subprocess
+    import sys
+
+    af = os.path.join(workdir, "child-args.json")
+    with open(af, "w") as f:
+        json.dump(args, f)
+    env = dict(os.environ)
+    env["PYTHONHASHSEED"] = str(hashseed)
+    script = os.path.join(os.path.dirname(os.path.abspath(__file__)), "c12_child.py")
+    try:
+        r = subprocess.run([sys.executable, script, af], env=env, capture_output=True,
+                           timeout=300)
+    except subprocess.TimeoutExpired:
+        return "timeout", None
+    if r.returncode == 137:
+        return "crash", None
+    if r.returncode == 0 and r.stdout:
+        return "ok", json.loads(r.stdout)["r"]
+    return "harness", (r.stderr or b"").decode(errors="replace")[-2000:]
+
+
 def cfg_key(cfg):
     return canon(cfg)
 
@@ -362,7 +386,15 @@ def execute(spec, ops, workdir, cold, stats=None, log=None):
                             fault["offset"] = min(ln, int(round(fault["frac"] * ln)))
                     if fault is not None:
                         op["fault"] = fault  # resolved offset becomes part of the history
-                if kind == "construct":
+                if op.get("hashseed") is not None:
+                    # this simulated process is a fresh interpreter with its own
+                    # string-hash seed (a cache may come from such a process)
+                    st, out = exec_child(workdir, op["hashseed"], {
+                        "op": kind, "root": sim.path, "cfg": cfg, "recs": recs, "probes": probes,
+                        "fault": fault, "now_ns": sim.clock_ns, "ps": op.get("ps"),
+                        "pse": op.get("pse")})
+                    stats.inc("fresh_interpreter_processes")
+                elif kind == "construct":
                     st, out = fork_call(child_construct, sim.path, cfg, recs, probes, fault,
                                         sim.clock_ns)
                 else:
@@ -654,6 +686,9 @@ def gen_run(rng, tier):
         cfgs = [gen_cfg(rng)]
     else:
         cfgs = [gen_cfg(rng) for _ in range(rng.randint(2, 3))]
+    # one history in twelve mixes in simulated processes that are fresh
+    # interpreters with another string-hash seed (0.3 s each)
+    cross_seed = rng.random() < 0.08
     maxlen = 8 if tier == "quick" else 16
     n = rng.randint(2, maxlen)
     enabled = {k for k in ("edit", "touch", "future", "delete", "compile", "edit_pge")
@@ -664,6 +699,8 @@ def gen_run(rng, tier):
         op = {"op": "construct", "cfg": rng.choice(cfgs), "dt": gen_dt(rng)}
         if faults_on and rng.random() < 0.35:
             op["fault"] = gen_fault(rng, fault_kinds, pge is not None)
+        if cross_seed and rng.random() < 0.5:
+            op["hashseed"] = rng.choice([1, 2, 3, 5, 7, 11])
         return op
 
     for _ in range(n - 1):
@@ -727,7 +764,8 @@ def gen_run(rng, tier):
     last = construct()
     last.pop("fault", None)
     ops.append(last)
-    meta = {"single": single, "faults_on": faults_on, "imports": use_imports, "family": fam}
+    meta = {"single": single, "faults_on": faults_on, "imports": use_imports, "family": fam,
+            "cross_seed": cross_seed}
     return spec, ops, meta
 
 
